@@ -48,6 +48,8 @@ _FORMAT_STRING_REGEX_BYTES = re.compile(_FORMAT_STRING_REGEX.encode("ascii"), _F
 _FORMAT_STRING_REGEX_TEXT = re.compile(_FORMAT_STRING_REGEX, _FLAGS)
 # All conversion types that accept numeric arguments
 _NUMERIC_CONVERSION_TYPES = set("diouxXeEfFgG")
+# Conversion types that accept only integers (objects with __index__), not floats
+_INTEGER_CONVERSION_TYPES = set("oxX")
 _FORMAT_STRING_CONVERSIONS = {"r", "s", "a"}
 _IDENTIFIER_REGEX = re.compile(r"^[A-Za-z_][A-Za-z_\d]*$")
 
@@ -158,6 +160,14 @@ class ConversionSpecifier:
                 yield (
                     f"%{self.conversion_type} conversion specifier accepts numbers, not"
                     f" {arg}"
+                )
+            elif self.conversion_type in _INTEGER_CONVERSION_TYPES and not TypedValue(
+                _SupportsIndex
+            ).is_assignable(arg, ctx):
+                # %o, %x and %X raise TypeError for a float
+                yield (
+                    f"%{self.conversion_type} conversion specifier accepts integers,"
+                    f" not {arg}"
                 )
         elif self.conversion_type in ("a", "r"):
             # accepts anything
